@@ -55,6 +55,8 @@ func checkC03(w *World, c *Check, tier string) {
 	c.floor("C03.flag", 20)
 	c.floor("C03.fresh", 15)
 	checkRegistryFresh(w, c, "C03.fresh")
+	c.floor("C03.invent", 5)
+	checkGobNothingInvented(w, c, t, "C03.invent")
 	checkFlagDiscipline(w, c, "C03.flag", nil)
 	checkGobObjectRecognition(w, c)
 	for _, s := range w.TaggedStructs() {
@@ -512,4 +514,76 @@ func presenceOfKey(v ssa.Value, depth int, seen map[ssa.Value]bool) string {
 		return presenceOfKey(x.Y, depth+1, seen)
 	}
 	return ""
+}
+
+// checkGobNothingInvented (C03.invent): the gob readers fill a property only from the bytes stored under its key — never
+// from another property of the value being built (a total derived from the number of decoded items, a default copied
+// from a sibling). Such a value was not stored: whenever the writer leaves the key out (an unset total), the value read
+// back differs from the one that was written.
+func checkGobNothingInvented(w *World, c *Check, t *tables, rule string) {
+	n := 0
+	for _, f := range w.Funcs {
+		root := f
+		for root.Parent() != nil {
+			root = root.Parent()
+		}
+		takesMap := false
+		for _, p := range root.Params {
+			if isGobMap(p.Type()) {
+				takesMap = true
+			}
+		}
+		if !takesMap {
+			continue
+		}
+		// readers only: the function (or its closures) looks keys up in the map
+		reads := false
+		for _, g := range append([]*ssa.Function{root}, allAnon(root)...) {
+			for _, b := range g.Blocks {
+				for _, in := range b.Instrs {
+					if lk, ok := in.(*ssa.Lookup); ok && isGobMap(lk.X.Type()) {
+						reads = true
+					}
+				}
+			}
+		}
+		if !reads {
+			continue
+		}
+		cnt := map[string]int{}
+		for _, b := range f.Blocks {
+			for _, in := range b.Instrs {
+				st, ok := in.(*ssa.Store)
+				if !ok {
+					continue
+				}
+				fa, ok := st.Addr.(*ssa.FieldAddr)
+				if !ok {
+					continue
+				}
+				fp, ok := t.pr.structPath(fa, 0)
+				if !ok || len(fp.Names) == 0 || fp.RootType == nil || w.StructInfoOf(fp.RootType.Obj().Name()) == nil {
+					continue
+				}
+				n++
+				key := funcName(f) + ":" + fp.String()
+				cnt[key]++
+				if cnt[key] > 1 {
+					key = fmt.Sprintf("%s#%d", key, cnt[key])
+				}
+				other := ""
+				for _, r := range t.pr.prov(st.Val).list() {
+					if len(r.Names) > 0 && r.RootType != nil && w.StructInfoOf(r.RootType.Obj().Name()) != nil && r.String() != fp.String() {
+						other = r.String()
+					}
+				}
+				if other != "" {
+					c.bad(rule, key, w.InstrPos(st), fmt.Sprintf("%s fills %s from %s of the value being built, not from the stored bytes: a value stored without that property reads back with one it never had", funcName(f), fp.String(), other))
+				} else {
+					c.ok(rule, key, w.InstrPos(st), "filled from the stored bytes")
+				}
+			}
+		}
+	}
+	c.stat("gob_reader_field_stores", n)
 }
